@@ -327,9 +327,47 @@ def generate(ctx, deep=False):
     return cases
 
 
+def no_checksum_cases(ctx):
+    """Sentences WITHOUT a checksum (cut right after the last field; the '*' replaced by another byte; '*' with nothing behind
+    it): there are no two hex digits after '*' that could equal anything, so such a sentence is never valid -- if it parses,
+    its flag must be False, an assembled message containing it is invalid, and strict decode() must refuse it."""
+    rng, rep, model = ctx.rng, ctx.rep, ctx.model
+    sents = [f for f in sample_sentences(rng, 3) if f[0][3:].upper() in (b'VDM', b'VDO')]
+    raws = []
+    for f in sents[:6]:
+        body = b','.join(f)
+        good = part_of(f).text
+        raws.append(('no-star', body))
+        raws.append(('empty-checksum', body + b'*'))
+        for b in ([0x20, 0x2B, 0x2C, 0x30, 0x41, 0x7E] if ctx.quick else [x for x in range(0x20, 0x7F) if x != 0x2A]):
+            raws.append(('star-replaced', body + bytes([b]) + good[-2:]))
+    m_prod = nc.model_produce(model, [r for _, r in raws]) if model else None
+    for i, (kind, raw) in enumerate(raws):
+        rep.case(('no-checksum', raw), kind='no-checksum:' + kind)
+        prod = nc.impl_produce(raw)
+        if m_prod is not None:
+            d = nc.diff_produce(prod, m_prod[i])
+            if d:
+                rep.disagree('H-nmea', {'entry': 'decode_nmea_line', 'raw': raw.hex(), 'kind': kind}, m_prod[i][:2] + (d,), prod[:2])
+        replay = {'no_checksum': True, 'raw': raw.hex()}
+        if prod[0] == 'Ok' and prod[1][1][6]:
+            rep.violation({'entry': 'decode_nmea_line', 'component': 'is_valid', 'kind': 'valid-without-checksum'},
+                          f'{raw[:90]!r} carries no checksum (no two hex digits after an asterisk) but is flagged valid', replay)
+            continue
+        strict = nc.impl_decode([raw], True)
+        lenient = nc.impl_decode([raw], False)
+        if prod[0] == 'Ok' and lenient[0] == 'Ok' and lenient[1][1][6]:
+            rep.violation({'entry': 'decode', 'component': 'assembled is_valid', 'kind': 'valid-without-checksum'},
+                          f'decode of {raw[:90]!r}: message flagged valid although the sentence has no checksum', replay)
+        if prod[0] == 'Ok' and strict[0] == 'Ok':
+            rep.violation({'entry': 'decode', 'component': 'strict mode', 'kind': 'accepted-invalid'},
+                          f'strict decode() accepted {raw[:90]!r}, a sentence without a checksum', replay)
+
+
 def run(ctx):
     cases = generate(ctx)
     run_cases(ctx, cases, model_decode_every=3 if ctx.quick else 1)
+    no_checksum_cases(ctx)
     if ctx.rep.disagreements or ctx.rep.violations:
         return      # the generator self-check below is only meaningful when implementation and model agree
     d = ctx.rep.dist
@@ -346,6 +384,15 @@ def hunt(ctx):
 
 
 def replay(ctx, data):
+    if data.get('no_checksum'):
+        raw = bytes.fromhex(data['raw'])
+        prod = nc.impl_produce(raw)
+        strict = nc.impl_decode([raw], True)
+        if prod[0] == 'Ok' and prod[1][1][6]:
+            return 'a sentence without a checksum is flagged valid'
+        if prod[0] == 'Ok' and strict[0] == 'Ok':
+            return 'strict decode() accepts a sentence without a checksum'
+        return None
     import vlib
     model = ctx.model or vlib.FastModel()
     parts = [Part(bytes.fromhex(q[1]), bytes.fromhex(q[2]), bytes.fromhex(q[3]), prefix=bytes.fromhex(q[0]),
